@@ -27,6 +27,8 @@ type mnode struct {
 	Share bool `json:"shared_instances,omitempty"`
 	// Form: how a nested Stack is stored in its parent ("" native, "alias", "ptr", "ptr-alias")
 	Form string `json:"stored_as,omitempty"`
+	// Lock: 1 mutex enabled, 2 read-only, 3 both (set once the content is in place)
+	Lock int `json:"lock,omitempty"`
 }
 
 func (n mnode) String() string {
@@ -60,6 +62,9 @@ func (n mnode) String() string {
 	if n.Form != "" {
 		f += "<" + n.Form + ">"
 	}
+	if n.Lock > 0 {
+		f += fmt.Sprintf("{lock=%d}", n.Lock)
+	}
 	return n.Kind + f + "[" + strings.Join(p, " ") + "]"
 }
 
@@ -67,6 +72,10 @@ func (n mnode) leaf() any {
 	switch n.VT {
 	case "nil":
 		return nil
+	case "anyslice": // a []any without a label: nothing Marshal can convert, a value like any other
+		return []any{1, 2}
+	case "emptyslice":
+		return []any{}
 	case "int":
 		if f, ok := n.V.(float64); ok {
 			return int(f)
@@ -128,6 +137,12 @@ func (n mnode) buildWith(shared map[string]any) (out any) {
 		vals = append(vals, k.buildWith(shared))
 	}
 	fill(s, vals, fillMode(n.String()))
+	if n.Lock&1 != 0 {
+		s.SetMutex()
+	}
+	if n.Lock&2 != 0 {
+		s.SetReadOnly(true)
+	}
 	switch n.Form {
 	case "alias":
 		return StackAlias(s)
@@ -259,6 +274,32 @@ func upperLabels(v any) any {
 	return out
 }
 
+// sliceLeaves: the tree holds []any leaves (outside the statement's leaf domain: Marshal may report them
+// as malformed input; if it does not, the reconstruction is judged like any other)
+func (n mnode) sliceLeaves() bool {
+	if n.T == "leaf" && (n.VT == "anyslice" || n.VT == "emptyslice") {
+		return true
+	}
+	for _, k := range n.Kids {
+		if k.sliceLeaves() {
+			return true
+		}
+	}
+	return false
+}
+
+func (n mnode) readOnlyBelow() bool {
+	if n.Lock&2 != 0 {
+		return true
+	}
+	for _, k := range n.Kids {
+		if k.readOnlyBelow() {
+			return true
+		}
+	}
+	return false
+}
+
 func (n mnode) plain() bool { // no capacity / case folding anywhere
 	if n.Cap > 0 || n.Fold {
 		return false
@@ -312,6 +353,9 @@ func c04Check(c *Ctx, n mnode, count bool) {
 			continue
 		}
 		if merr != nil {
+			if n.sliceLeaves() {
+				continue // a raw []any leaf may be reported as input Marshal could not convert
+			}
 			fail("marshal-error:"+form, "Marshal(%s) of the Unmarshal result failed: %v (input %v)", form, merr, u)
 			continue
 		}
@@ -340,6 +384,10 @@ func c04Check(c *Ctx, n mnode, count bool) {
 	}
 	// the same tree after an edit that keeps every length: each Stack of the tree reversed in place.
 	// Whatever Unmarshal (or anything else) remembered from the first pass no longer describes the tree.
+	if n.readOnlyBelow() {
+		c.Outcome(fmt.Sprint(len(u)))
+		return // a read-only stack cannot be edited in place
+	}
 	rn := reverseDesc(n)
 	if p := noPanic(func() { reverseLive(orig); u, err = orig.Unmarshal() }); p != "" {
 		fail("panic:Unmarshal-after-edit", "Unmarshal after reversing every stack in place panicked: %s", p)
@@ -514,6 +562,27 @@ func c04Trees(c *Ctx) []mnode {
 				cur = mnode{T: "stack", Kind: kindNames[lvl%5], Kids: []mnode{{T: "leaf", V: lvl, VT: "int"}, link, {T: "leaf", V: fmt.Sprintf("after%d", lvl), VT: "string"}}}
 			}
 			trees = append(trees, cur)
+		}
+	}
+	// []any leaves without a label (nothing to convert), last among the slices of a nested stack, with and
+	// without a convertible sibling after it at the levels above
+	for i, sl := range []mnode{{T: "leaf", VT: "anyslice"}, {T: "leaf", VT: "emptyslice"}} {
+		in := mnode{T: "stack", Kind: "OR", Kids: []mnode{leaves[0], sl}}
+		in2 := mnode{T: "stack", Kind: "LIST", Kids: []mnode{sl, leaves[3]}}
+		cd := mnode{T: "cond", Kw: "sl", Op: 1, Kids: []mnode{in}}
+		for _, k := range kindNames {
+			trees = append(trees, mnode{T: "stack", Kind: k, Kids: []mnode{in, {T: "stack", Kind: "AND", Kids: []mnode{leaves[0]}}}}, mnode{T: "stack", Kind: k, Kids: []mnode{leaves[i], in, conds[0]}},
+				mnode{T: "stack", Kind: k, Kids: []mnode{{T: "stack", Kind: "AND", Kids: []mnode{in, in2}}, conds[1]}}, mnode{T: "stack", Kind: k, Kids: []mnode{cd, {T: "stack", Kind: "NOT", Kids: []mnode{leaves[0]}}}},
+				mnode{T: "stack", Kind: k, Kids: []mnode{in}}, mnode{T: "stack", Kind: k, Kids: []mnode{sl, in2, in}})
+		}
+	}
+	// locking and the read-only flag, alone and together, on the root, on a nested stack and on a Condition's
+	// expression
+	for lock := 1; lock <= 3; lock++ {
+		for i := 0; i < len(d1); i += 9 {
+			st := d1[i]
+			st.Lock = lock
+			trees = append(trees, st, mnode{T: "stack", Kind: kindNames[(i+lock)%5], Kids: []mnode{leaves[0], st}}, mnode{T: "stack", Kind: kindNames[(i+lock+1)%5], Lock: lock, Kids: []mnode{{T: "cond", Kw: "lk", Op: 2, Kids: []mnode{st}}, st}})
 		}
 	}
 	// one instance stored in several places: as siblings, in two branches, below a Condition and next to it
